@@ -291,9 +291,49 @@ def agentsched_part(ctx, rp):
     ctx.obligation('agent scheduler under %d loop scripts: every task is handed on, failed or canceled once' % n, 'tie', True, '')
 
 
+def master_part(ctx, rp):
+    """raptor tasks come back to their master in bulks (real Master._result_cb, real AgentComponent-style hand-over
+    recorded): every task of the bulk is handed on to output staging exactly once with a target state that tells the
+    truth - DONE iff its exit code is 0 - also next to a task that never got an exit code (the worker could not even
+    start it: the key is there, the value is None) or already carries a target state"""
+    from radical.pilot.raptor.master import Master
+    rng = ctx.rng
+    n = 0
+    bulks = [[0, None, 3], [None], [0, 0], [None, 0]]
+    for _ in range(ctx.n(60, 1500)):
+        bulks.append([rng.choice([0, 0, 1, 3, -1, None, None, 'absent', 'preset']) for _ in range(rng.randint(1, 5))])
+    for codes in bulks:
+        m = object.__new__(Master)
+        m._uid, m._log, m._prof = 'master.0000', rpload.NullLog(), rpload.NullLog()
+        m._task_service_data = {}
+        handed = []
+        m.advance = lambda things, state=None, **kw: handed.extend((t['uid'], state, t.get('target_state')) for t in (things if isinstance(things, list) else [things]))
+        tasks = []
+        for k, c in enumerate(codes):
+            t = {'uid': 'task.%06d' % k, 'description': {}}
+            if c == 'preset':   t.update({'exit_code': 1, 'target_state': 'FAILED'})
+            elif c != 'absent': t['exit_code'] = c
+            tasks.append(t)
+        err = None
+        try:
+            m._result_cb(tasks)
+        except Exception as e:
+            err = type(e).__name__
+        n += 1
+        ctx.case({'master_results': [str(c) for c in codes]}, nontrivial=None in codes and len(codes) > 1)
+        want = [('task.%06d' % k, 'AGENT_STAGING_OUTPUT_PENDING', 'DONE' if c == 0 else 'FAILED') for k, c in enumerate(codes)]
+        if err or handed != want:
+            ctx.fail('raptor-master:result-bulk-not-handed-on-truthfully',
+                     'exit codes %s: %s; handed on %s, expected %s' % (codes, 'raised ' + err if err else 'no exception', handed, want),
+                     {'kind': 'master_results', 'codes': [c if c is None or isinstance(c, int) else str(c) for c in codes]}, observed=handed)
+    ctx.obligation('raptor master: %d result bulks through the real Master._result_cb (missing exit codes among them): '
+                   'every task handed on once, DONE iff exit code 0' % n, 'tie', True, '')
+
+
 def run(ctx):
     rp  = rpload.load()
     rng = ctx.rng
+    master_part(ctx, rp)
     exec_part(ctx, rp)
     tmgrsched_part(ctx, rp)
     agentsched_part(ctx, rp)
@@ -385,6 +425,25 @@ CORPUS = [
 def replay(ctx, data):
     rp = rpload.load()
     i = data['input']
+    if i.get('kind') == 'master_results':
+        from radical.pilot.raptor.master import Master
+        m = object.__new__(Master)
+        m._uid, m._log, m._prof = 'master.0000', rpload.NullLog(), rpload.NullLog()
+        m._task_service_data = {}
+        handed = []
+        m.advance = lambda things, state=None, **kw: handed.extend((t['uid'], t.get('target_state')) for t in (things if isinstance(things, list) else [things]))
+        tasks = []
+        for k, c in enumerate(i['codes']):
+            t = {'uid': 'task.%06d' % k, 'description': {}}
+            if c == 'preset':   t.update({'exit_code': 1, 'target_state': 'FAILED'})
+            elif c != 'absent': t['exit_code'] = c
+            tasks.append(t)
+        try:
+            m._result_cb(tasks)
+        except Exception as e:
+            print('raised', repr(e)); return False
+        print('handed on:', handed)
+        return handed == [('task.%06d' % k, 'DONE' if c == 0 else 'FAILED') for k, c in enumerate(i['codes'])]
     if 'timeout_watcher' in i:
         from props import timeoutsuite
         return timeoutsuite.replay(ctx, data, 'C05')
